@@ -82,6 +82,12 @@ def check_cfg(job):
     dl = np.zeros(shape, dtype=np.complex128)
     dl.flat[rs.randint(dl.size)] = 1
     inputs.append(("delta128", dl, 1e-10))
+    # coherent data near the top of the floating-point range: the unitary transform stays finite (sqrt(N) * max), any detour
+    # through an unnormalised intermediate does not; and tiny data near the bottom
+    if norm == "ortho":
+        inputs.append(("huge128", np.full(shape, (1 + 1j) * 1e305, dtype=np.complex128), 1e-10))
+        inputs.append(("huge64", np.full(shape, (1 + 1j) * 1e36, dtype=np.complex64), 2e-5))
+        inputs.append(("tiny128", x128 * 1e-300, 1e-10))
     for name, x, tol in inputs:
         x0 = x.copy()
         try:
@@ -98,7 +104,7 @@ def check_cfg(job):
         want_dtype = x.dtype if np.issubdtype(x.dtype, np.complexfloating) else np.complex64
         if y.dtype != want_dtype:
             out.append(("dtype", "%s input gives %s output (complex input keeps its precision; real input -> complex64)" % (x.dtype, y.dtype)))
-        sc = max(1.0, float(np.abs(ex).max()))
+        sc = max(1.0, float(np.abs(ex).max())) if not name.startswith(("huge", "tiny")) else float(np.abs(ex).max())   # extreme magnitudes: purely relative
         if not np.allclose(y, ex, atol=tol * sc, rtol=0):
             out.append(("value", "%s input: max |%s(x) - DFT-matrix definition| = %.3g" % (name, cfg["dir"], float(np.abs(y - ex).max()))))
     y_c = fn(x128, oshape=osh, axes=axes, center=cfg["center"], norm=norm)
